@@ -650,9 +650,15 @@ func (s *Store) reapInternal() (int, int, error) {
 		p.AddRename(full.path, finalDir)
 	}
 
+	if err := verifhook.Hit("snapshot.reap.before-plan-write"); err != nil {
+		return 0, 0, err
+	}
 	// Persist the plan to disk for crash recovery.
 	if err := plan.WriteToFile(p, s.reapPlanPath); err != nil {
 		return 0, 0, fmt.Errorf("writing reap plan: %w", err)
+	}
+	if err := verifhook.Hit("snapshot.reap.after-plan-write"); err != nil {
+		return 0, 0, err
 	}
 
 	return s.executeReapPlan(p, s.reapPlanPath)
@@ -667,13 +673,22 @@ func (s *Store) executeReapPlan(p *plan.Plan, planPath string) (int, int, error)
 	if err := p.Execute(executor); err != nil {
 		return 0, 0, fmt.Errorf("executing reap plan: %w", err)
 	}
+	if err := verifhook.Hit("snapshot.reap.after-execute"); err != nil {
+		return 0, 0, err
+	}
 
 	if err := fsutil.SyncDirMaybe(s.dir); err != nil {
 		return 0, 0, fmt.Errorf("syncing store dir: %w", err)
 	}
+	if err := verifhook.Hit("snapshot.reap.after-dir-sync"); err != nil {
+		return 0, 0, err
+	}
 
 	// Clean up the plan file.
 	os.Remove(planPath)
+	if err := verifhook.Hit("snapshot.reap.after-plan-remove"); err != nil {
+		return 0, 0, err
+	}
 	return p.NReaped, p.NCheckpointed, nil
 }
 
@@ -714,12 +729,18 @@ func (s *Store) SetDueNext(t Type) error {
 		if err := f.Close(); err != nil {
 			return err
 		}
+		if err := verifhook.Hit("snapshot.duenext.full.after-create"); err != nil {
+			return err
+		}
 		return fsutil.SyncDirMaybe(s.dir)
 	case Incremental:
 		if !fsutil.FileExists(s.fullNeededPath) {
 			return nil
 		}
 		if err := os.Remove(s.fullNeededPath); err != nil {
+			return err
+		}
+		if err := verifhook.Hit("snapshot.duenext.incremental.after-remove"); err != nil {
 			return err
 		}
 		return fsutil.SyncDirMaybe(s.dir)
@@ -829,8 +850,14 @@ func (s *Store) check() error {
 		return nil
 	}
 
+	if err := verifhook.Hit("snapshot.check.begin"); err != nil {
+		return err
+	}
 	// Remove any incomplete plan file from an interrupted plan write.
 	os.Remove(tmpName(s.reapPlanPath))
+	if err := verifhook.Hit("snapshot.check.after-plan-tmp-remove"); err != nil {
+		return err
+	}
 
 	// Resume an interrupted reap if a plan file exists, before any temporary
 	// directories are removed below, since the reap may still need them.
@@ -864,6 +891,9 @@ func (s *Store) check() error {
 			s.logger.Printf("reap plan at %s is fully executed, removing plan", s.reapPlanPath)
 			os.Remove(s.reapPlanPath)
 		}
+		if err := verifhook.Hit("snapshot.check.after-plan"); err != nil {
+			return err
+		}
 	}
 
 	// Anything remaining is truly temporary and can now be cleaned up.
@@ -877,6 +907,9 @@ func (s *Store) check() error {
 			s.logger.Printf("removing leftover temporary directory %s", tmpPath)
 			if err := os.RemoveAll(tmpPath); err != nil {
 				return fmt.Errorf("removing temporary directory %s: %w", tmpPath, err)
+			}
+			if err := verifhook.Hit("snapshot.check.after-tmp-remove"); err != nil {
+				return err
 			}
 		}
 	}
